@@ -214,13 +214,74 @@ async def workflow_case(context):
     return None
 
 
+def generic(o, depth=0):
+    """structural description of a parameter object: class name + every attribute (recursively), without the back references"""
+    import enum
+
+    if depth > 6:
+        return "..."
+    if isinstance(o, enum.Enum):
+        return f"{type(o).__name__}.{o.name}"
+    if o is None or isinstance(o, (bool, int, float, str)):
+        return o
+    if isinstance(o, (list, tuple)):
+        return [generic(x, depth + 1) for x in o]
+    if isinstance(o, (set, frozenset)):
+        return sorted(repr(generic(x, depth + 1)) for x in o)
+    if isinstance(o, dict):
+        return {str(k): generic(v, depth + 1) for k, v in o.items()}
+    if type(o).__module__.startswith("streamflow"):
+        d = {}
+        for k in sorted(set(getattr(o, "__dict__", {})) | {s for c in type(o).__mro__ for s in getattr(c, "__slots__", ())}):
+            if k in ("workflow", "context", "persistent_id", "_saving") or not hasattr(o, k):
+                continue
+            d[k] = generic(getattr(o, k), depth + 1)
+        return (type(o).__name__, d)
+    return repr(type(o))
+
+
+async def cwl_case(context):
+    """CWL entity types: a CWLWorkflow with token transformers whose processors carry every parameter kind (enum values such as
+    LoadListing.no_listing = 0, False / None / empty values included); all attributes of the loaded processors equal the saved ones"""
+    from streamflow.cwl.processor import CWLTokenProcessor
+    from streamflow.cwl.transformer import CWLTokenTransformer
+    from streamflow.cwl.utils import LoadListing
+    from streamflow.cwl.workflow import CWLWorkflow
+
+    wf = CWLWorkflow(context=context, config={"c": jsonish()}, name=uniq("cwlwf"), cwl_version=rng.choice(["v1.0", "v1.1", "v1.2"]))
+    for i in range(rng.randint(1, 4)):
+        proc = CWLTokenProcessor(
+            name="x", workflow=wf,
+            token_type=rng.choice(["File", "Directory", "string", "int", ["null", "File"], None]),
+            enum_symbols=rng.choice([None, [], ["a", "b"]]),
+            expression_lib=rng.choice([None, [], ["function f(){return 1;}"]]),
+            file_format=rng.choice([None, "", "http://edamontology.org/format_2330"]),
+            full_js=rng.random() < 0.5,
+            load_contents=rng.choice([None, False, True]),
+            load_listing=rng.choice([None, LoadListing.no_listing, LoadListing.shallow_listing, LoadListing.deep_listing]),
+            only_propagate_secondary_files=rng.random() < 0.5,
+            streamable=rng.random() < 0.5,
+        )
+        st = wf.create_step(cls=CWLTokenTransformer, name=f"/transformer-{i}", port_name="x", processor=proc)
+        st.add_input_port("x", wf.create_port())
+        st.add_output_port("x", wf.create_port())
+    want = {n: generic(s.processor) for n, s in wf.steps.items()}
+    await wf.save(context.database)
+    loaded = await CWLWorkflow.load(wf.persistent_id, DefaultDatabaseLoadingContext(database=context.database))
+    got = {n: generic(s.processor) for n, s in loaded.steps.items()}
+    if got != want or generic(loaded.cwl_version) != generic(wf.cwl_version):
+        diff = {n: [(k, want[n][1].get(k), got.get(n, (None, {}))[1].get(k)) for k in want[n][1] if n not in got or want[n][1].get(k) != got[n][1].get(k)] for n in want}
+        return {"failure": "a CWL workflow loaded back differs from the one saved", "differences (attribute, saved, loaded)": str({n: d for n, d in diff.items() if d})[:900]}
+    return None
+
+
 async def search(n):
     workdir = tempfile.mkdtemp(prefix="c08.")
     context = build_context({"database": {"type": "default", "config": {"connection": ":memory:"}}, "path": workdir})
     try:
         await port_twice_case(context)
         for k in range(n):
-            bad = await asyncio.wait_for((token_case if k % 2 == 0 else workflow_case)(context), 60)
+            bad = await asyncio.wait_for([token_case, workflow_case, token_case, cwl_case][k % 4](context), 60)
             if bad:
                 return bad
     except Exception as e:
